@@ -614,6 +614,13 @@ func drawC15(t *rapid.T) *Case {
 		// error - it is never answered locally
 		p.CancelAtStep = rapid.IntRange(1, 120).Draw(t, "cancelat")
 	}
+	if p.CancelAtStep == 0 && drawBool(t, "refuse", 20) {
+		// the back-end is away for a moment: 1-3 of the proxy's connection attempts are refused;
+		// those requests get a gateway error, every other one is forwarded as ever
+		for k := rapid.IntRange(1, 3).Draw(t, "nrefuse"); k > 0; k-- {
+			p.Faults.RefuseDial = append(p.Faults.RefuseDial, rapid.IntRange(1, 6).Draw(t, "refuseat"))
+		}
+	}
 	p.Tape, p.Tail = drawTape(t, 32)
 	c := &Case{Plan: p, Metas: metas, Oracle: oracleC15, Aux: aux}
 	c.Summary = fmt.Sprintf("probe=%v cancelAt=%d expect=%v | %s", aux.ProbeOn, p.CancelAtStep, aux.Expect, defaultSummary(p, metas))
@@ -660,6 +667,15 @@ func clientResponse(w *World, c *Case, ci, ri int) (status int, body []byte, hdr
 func oracleC15(w *World, c *Case) {
 	aux := c.Aux.(*c15Aux)
 	by := w.ReqsByTag()
+	gatewayErrs := 0
+	defer func() {
+		w.Net.fmu.Lock()
+		refused := w.Net.Faults["backend_refuse"]
+		w.Net.fmu.Unlock()
+		if gatewayErrs > refused {
+			w.Violate("nonprobe_local", "nonprobe_local:gateway", "%d non-probe requests were answered with a gateway error (502) by the proxy itself although only %d connection attempts to the back-end were refused: the others were not forwarded", gatewayErrs, refused)
+		}
+	}()
 	for ci, m := range c.Metas {
 		for ri, r := range m.Reqs {
 			status, body, hdr, ok := clientResponse(w, c, ci, ri)
@@ -690,6 +706,14 @@ func oracleC15(w *World, c *Case) {
 				default:
 					w.Probe("judged_during_shutdown")
 				}
+				continue
+			}
+			if !forwarded && !local && status == 502 && want == "forward" {
+				// a gateway error of the proxy's own: legitimate for a request whose connection to
+				// the back-end was refused (injected), and only for those - every other non-probe
+				// request is to be forwarded, not answered from a memory of earlier failures
+				gatewayErrs++
+				w.Probe("gateway_error_answer")
 				continue
 			}
 			if forwarded == local || forwarded != fromBackend {
